@@ -16,6 +16,12 @@ for f in sorted(glob.glob(os.path.join(HERE, "seeded", "*", "meta.json"))):
     hist = " *(%s)*" % m["history"] if m.get("history") else ""
     print("| %s | %s | %s%s | %s |" % (m["name"], m["property"], m.get("needs_to_manifest", ""), hist, "; ".join(cls) or "**missed**"))
 print()
+print("| benign change (must not alarm) | written for | checks run | alarms |")
+print("|---|---|---|---|")
+for f in sorted(glob.glob(os.path.join(HERE, "benign", "*", "meta.json"))):
+    m = json.load(open(f))
+    print("| %s | %s | %s | %s |" % (m["name"], m["property"], " ".join(sorted(m["checks"])), ", ".join(m["alarms"]) or "none"))
+print()
 sp = os.path.join(HERE, "evidence", "selftest_sensitivity.json")
 if os.path.exists(sp):
     print("| built-in mutant | property | what | 109 tests | check |")
